@@ -2,6 +2,7 @@ SPECIFICATION TSpec
 CONSTANTS
   Subjects = {"alice", "bob"}
   MaxReq = 3
+  MaxIdp = 3
   MaxSteps = 9
-INVARIANTS Authentic NoReplay PendingSane
+INVARIANTS Authentic NoReplay PendingSane AnswersOnlyIdP
 CHECK_DEADLOCK FALSE
